@@ -614,6 +614,10 @@ func Replay(w *world.World, sc *Scenario, rootName string, labels []string, log 
 		s.Viol[fd.Property+"/"+fd.Clause+"/"+fd.Disc] = fd.Detail
 	}
 	var out []Finding
+	for sig, det := range s.Viol {
+		p := strings.SplitN(sig, "/", 3)
+		out = append(out, Finding{Property: p[0], Clause: p[1], Disc: p[2], Op: "root", Detail: det})
+	}
 	for i, l := range labels {
 		pctx := w.View(s.F)
 		var op *Op
